@@ -72,8 +72,8 @@ def cast(x, kind):
         return xi + ((np.arange(len(xi)) * 7) % 3 == 0).astype(np.int64)
     if kind == 'float16':              # half-precision storage with an offset (finite, but its plain sum overflows float16)
         return (x / span * 40 + 80).astype(np.float16)
-    if kind == 'float32-huge':         # finite single-precision values whose sum overflows float32
-        return (x / span * 1e37).astype(np.float32)
+    if kind == 'float32-huge':         # large single-precision values (1e30: sums over a kernel still fit float32; values near 1e37 overflow inside the trusted filter)
+        return (x / span * 1e30).astype(np.float32)
     if kind == 'uint16':               # offset binary bottoming out at 0
         return np.clip(np.round(x / span * 40000 + 30000), 0, 65535).astype(np.uint16)
     return x
